@@ -342,7 +342,7 @@ theorem settledOK_sound (acts : List Act) (needChans : Bool) (n : Nat) (s1 : St)
     okState needChans (run s1 as) = true := certified_sound _ acts n s1 h as has
 
 /-- connection-progress actions of the environment that may race an event -/
-def progressActs : List Act := [.iceConnect, .dtlsConnect, .roleSet, .descsSet, .iceLateFail]
+def progressActs : List Act := [.iceConnect, .dtlsConnect, .roleSet, .descsSet]
 
 /-- the terminating events of the property (application and lower layers) -/
 def terminatingEvents : List Act :=
@@ -378,7 +378,7 @@ without a data-channel association, at **every phase boundary**, for **every ter
 occur there (`close()`, drop, peer close_notify, SCTP ABORT / SHUTDOWN / SHUTDOWN-ACK / heartbeat timeout,
 ICE failure / stop / disconnect, DTLS failure): the certificate holds, i.e. (by `settledOK_sound`) **every
 schedule** of the implementation's own tasks *and* of racing connection progress (ICE connecting, DTLS
-completing, role / descriptions arriving, the ICE check task's late nomination failure after a stop) that ends quiescent ends terminal — peer state in
+completing, role / descriptions arriving) that ends quiescent ends terminal — peer state in
 {Disconnected, Failed, Closed} with a reason. (False before the round-2 fixes: witnesses below.) -/
 theorem reaches_terminal_with_reason :
     phaseEventTable.all (fun (m, app, ph, e) =>
@@ -439,19 +439,6 @@ theorem all_pending_calls_released :
       settledOK (.senderBlocks :: internalActs) true 60
         (step (run (connectedSt .webrtc true 1) [.senderBlocks, .senderBlocks]) e)) = true := by
   decide +kernel
-
-/-- **ICE `Closed` is not final in the ICE layer** (observed on the implementation, round 3): an
-`IceTransport::stop()` while the controlling side's nomination is in flight is followed by the check task's
-unconditional `state.send(Failed)` ("All nomination attempts failed"). The driving loop then takes its
-`Failed` arm instead of the `Closed` one: the connection ends `Failed` / `IceFailed` with signaling still
-`Stable` — terminal with a reason, readers released (fix 901afcf) — instead of `Closed` / `IceDisconnected`.
-Both outcomes satisfy the property; `iceLateFail` is one of the racing actions of every certificate above. -/
-theorem ice_stop_during_checking_two_outcomes :
-    let a := run (phaseState .webrtc true 1 .checking) [.iceStop, .drvTop]
-    let b := run (phaseState .webrtc true 1 .checking) [.iceStop, .iceLateFail, .drvTop]
-    (quiescent a = true ∧ a.peer = .closed ∧ a.sig = .closed ∧ a.reason = some .iceDisconnected) ∧
-    (quiescent b = true ∧ b.peer = .failed ∧ b.sig = .stable ∧ b.reason = some .iceFailed ∧
-      b.chans = [⟨true, 1, true⟩] ∧ call b .waitForConnected = .errNow) := by decide
 
 /-- While the driving loop is still alive the lenient terminal state is **not** final: after the ICE
 disconnect grace expired (`Disconnected` + `IceDisconnected`, SCTP closed) the loop is parked at its top and
